@@ -114,6 +114,8 @@ type Explorer struct {
 	sampleN     int
 	seed        int64
 	unexplored  int
+	crossSessions []crossSession
+	crossWanted, crossSeen int
 }
 
 func NewExplorer(property, harness string) *Explorer {
